@@ -72,3 +72,20 @@ func VerifC11_BlueGreenStylePlaneUpgradesUnlessNoReplicas() {
 	verifrt.Assert(err == nil, "C11.bluegreenstyle.plane.upgrade.noError")
 	verifrt.Assert(ctl.upgrades == 1 || ctl.info.Replicas == 0, "C11.bluegreenstyle.plane.upgradeSkippedOnlyWithoutReplicas")
 }
+
+// VerifC11_BlueGreenStylePlaneInitializeRecordsTheWorkload: a successful Initialize records, in the status that is persisted
+// (newStatus), the size and the revisions of the workload as the controller sees them: scaling is later detected
+// against exactly this observed size, and "ready" is judged for these revisions.
+func VerifC11_BlueGreenStylePlaneInitializeRecordsTheWorkload() {
+	rc, ctl := c11Plane()
+	ctl.info.Status.StableRevision = "rev-1"
+	ctl.info.Status.UpdateRevision = "rev-2"
+	rc.newStatus.ObservedWorkloadReplicas = -1
+	rc.release.Status.ObservedWorkloadReplicas = -1
+	err := rc.Initialize()
+	if err != nil {
+		return
+	}
+	verifrt.Assert(rc.newStatus.ObservedWorkloadReplicas == ctl.info.Replicas, "C11.bluegreenstyle.plane.initialize.observesTheWorkloadSize")
+	verifrt.Assert(rc.newStatus.StableRevision == "rev-1" && rc.newStatus.UpdateRevision == "rev-2", "C11.bluegreenstyle.plane.initialize.observesTheRevisions")
+}
